@@ -262,6 +262,7 @@ def oracle(case, result):
     now = 0
     added = [dict() for _ in managers]         # ground truth: when each present entry was added
     computed = [dict() for _ in managers]      # (id, i) -> time of the last add, until unpersist
+    evaluated = {}                             # (pipeline, node) persisted and fully evaluated by collect/count
     for t, (a, (r, log, obs)) in enumerate(zip(history, steps)):
         if isinstance(r, Err) and not (a[0] == 0 and a[3] == 3 and r.name == 'StopIteration'):
             return (f'step:{r.name}', f'step {t} {a} raised {r.name}')
@@ -290,6 +291,8 @@ def oracle(case, result):
                 tmo = managers[mi]
                 for i in range(len(parts)):
                     t_add = computed[mi].get((rid, i))
+                    if tmo is None and (k, q) in evaluated:
+                        t_add = evaluated[(k, q)]      # fully evaluated by an earlier collect()/count()
                     if t_add is None or (tmo is not None and not now - t_add < tmo):
                         continue
                     calls = [e for e in log if e[0] in upstream and e[1] == i]
@@ -316,7 +319,14 @@ def oracle(case, result):
         for mi, key, tt in aux[t]:
             added[mi][key] = tt
             computed[mi][key] = tt
+        if a[0] == 0 and a[3] in (0, 1):
+            # the most downstream persisted node at or before the target is certainly consulted for every
+            # partition (persisted nodes upstream of it may be hidden by its entries)
+            qs = [q for q in range(1, a[2] + 1) if pipelines[a[1]][2][q - 1][0] == PERSIST]
+            if qs:
+                evaluated.setdefault((a[1], qs[-1]), now)
         if a[0] == 1:
+            evaluated.pop((a[1], a[2]), None)
             rid = ids[a[1]][a[2]]
             for cm in computed:
                 for key in [key for key in cm if key[0] == rid]:
@@ -488,6 +498,9 @@ CORPUS = [
     ([None], [(0, False), (0, False)],
      [(0, [[1, 2]], [(MAP, 0), (PERSIST, 0)]), (1, [[5, 6]], [(MAP, 1), (PERSIST, 0)])],
      [(0, 0, 2, 0, 0), (0, 1, 2, 0, 0), (0, 0, 2, 0, 0), (0, 1, 2, 0, 0)]),
+    # unpersist of an upstream persisted node that stays hidden behind its persisted descendant
+    ([None], [(0, False)], [(0, [[1, 2], [3]], [(MAP, 0), (PERSIST, 0), (MAP, 1), (PERSIST, 0)])],
+     [(0, 0, 4, 0, 0), (1, 0, 2), (0, 0, 4, 0, 0), (0, 0, 2, 0, 0), (0, 0, 4, 2, 3)]),
     # timed manager through a pool: joined entries expire (the repaired defect)
     ([3], [(0, True)], [(0, [[1], [2]], [(MAP, 0), (PERSIST, 0)])],
      [(0, 0, 2, 0, 0), (2, 4), (3, 0), (0, 0, 2, 0, 0)]),
